@@ -176,8 +176,15 @@ def ack_applied(ctx, r, must, root):
                             pl = a.get("move")
                             if pl is not None and not pl["p"] and pl["l"] in alias:
                                 handed = True
-                collected = derives_from(ctx, root, sl, {"move": {"l": V, "p": []}},
-                                         lambda evs: "INDEX_READ" in sem_set(evs))
+                is_read = lambda evs: "INDEX_READ" in sem_set(evs)
+                collected = derives_from(ctx, root, sl, {"move": {"l": V, "p": []}}, is_read)
+                if not collected:
+                    # filled by a loop: every push into the list takes a value read from the index
+                    fills = [s for s in root.calls() if (s.path or "").split("::")[-1] in ("push", "extend", "insert", "append",
+                                                                                           "extend_from_slice")
+                             and s.term["args"] and ctx.world.borrowed_local(root, s.term["args"][0]) in alias]
+                    collected = bool(fills) and all(
+                        len(s.term["args"]) > 1 and derives_from(ctx, root, sl, s.term["args"][1], is_read) for s in fills)
                 r.check(handed and collected and applied and len(val) == len(lens),
                         "reported:%s:count" % root.path.split("::")[-1], root,
                         "%s reports the length of the very key list it collected from the index range and handed "
